@@ -127,3 +127,14 @@ Example selfdisable_drops :
   executed selfdis_codes 0 selfdis_ops 0 2 = 1 /\ dropped selfdis_codes 0 selfdis_ops 0 2 = 1
   /\ reported_hits (run selfdis_codes 0 0 selfdis_ops) 0 2 = 0.
 Proof. vm_compute. repeat split. Qed.
+
+(* ---- two interleaved instances of one generator: every line is charged its own activation's time --- *)
+Definition gen_codes : list code := [mkcode 0 0 0 1000 [2; 3; 4]].
+Definition gen_ops : list op :=
+  [G 0 0; E 0;
+   L 0 0 1 0 2; A 5; R 0 0 1 0 2;          (* instance 1 runs to its first yield *)
+   L 0 0 2 0 2; A 7; R 0 0 2 0 2;          (* instance 2 likewise *)
+   A 1000;                                  (* both suspended *)
+   L 0 0 1 1 3; A 11; L 0 0 1 1 4; R 0 0 1 1 4;   (* instance 1 resumed (segment 1) *)
+   L 0 0 2 1 3; A 13; R 0 0 2 1 3;
+   D 0; S].
